@@ -52,9 +52,10 @@ func TestVerifC18_API(t *testing.T) {
 	rapid.Check(t, func(t *rapid.T) {
 		q := rapid.SampledFrom(vgtQuanta).Draw(t, "q")
 		noStd := rapid.Bool().Draw(t, "noStandardView")
-		nbits := rapid.IntRange(1, 10).Draw(t, "nbits")
+		nbits := rapid.IntRange(1, 12).Draw(t, "nbits")
 		var bits []vC18Bit
 		var anchors []time.Time
+		resets := 0
 		for i := 0; i < nbits; i++ {
 			l := fmt.Sprintf("b%d", i)
 			b := vC18Bit{
@@ -66,11 +67,25 @@ func TestVerifC18_API(t *testing.T) {
 				anchors = append(anchors, b.TS)
 			}
 			b.ViaAPI = rapid.Bool().Draw(t, l+".viaImport")
+			if i > 0 && rapid.IntRange(0, 2).Draw(t, l+".again") == 0 {
+				// the same (row, column) bit again, at another timestamp (or first without, then with one):
+				// the model stays "columns with a timestamp in range"
+				prev := bits[rapid.IntRange(0, i-1).Draw(t, l+".prev")]
+				b.Row, b.Col = prev.Row, prev.Col
+				if b.TS.IsZero() {
+					b.TS = vgtGenStamp(t, l+".againTS", anchors)
+					anchors = append(anchors, b.TS)
+				}
+				if rapid.IntRange(0, 3).Draw(t, l+".samePath") > 0 {
+					b.ViaAPI = prev.ViaAPI
+				}
+				resets++
+			}
 			bits = append(bits, b)
 		}
 		c := vkit.NewCase().Key("api", q, noStd, fmt.Sprint(bits))
 		defer c.Done()
-		c.Class("q:"+string(q)).ClassIf(noStd, "noStandardView")
+		c.Class("q:"+string(q)).ClassIf(noStd, "noStandardView").ClassIf(resets > 0, "sameBitSeveralTimestamps")
 
 		index, drop := srv.newIndex(t, pilosa.IndexOptions{})
 		defer drop()
